@@ -875,6 +875,81 @@ func c07SlotWait(b Bounds) *Scenario {
 	}
 }
 
+// c07BatchDups: one batch carrying the same id k times (with another call in between): every
+// member with the shared id fails with -32600, none runs, the other call is served.
+func c07BatchDups(k int, b Bounds) *Scenario {
+	return &Scenario{
+		Name:   fmt.Sprintf("one batch with id 7 used %d times and a call with id 8 in between", k),
+		Params: map[string]any{"copies": k},
+		Bounds: b,
+		New: func() *Instance {
+			h := &c07H{gates: NewGates(), running: map[string]string{}}
+			body := func() {
+				lib, peer, _ := NewPipe(PipeOpts{Name: "srv", CloseUnblocksRecv: true})
+				srv := jrpc2.NewServer(c07Assigner{h.handler()}, &jrpc2.ServerOptions{Concurrency: 4})
+				srv.Start(lib)
+				var parts []string
+				for i := 0; i < k; i++ {
+					parts = append(parts, fmt.Sprintf(`{"jsonrpc":"2.0","id":7,"method":"fast%d"}`, i))
+					if i == 0 {
+						parts = append(parts, `{"jsonrpc":"2.0","id":8,"method":"fastx"}`)
+					}
+				}
+				peer.Send([]byte("[" + strings.Join(parts, ",") + "]"))
+				vs.AwaitQuiescence()
+				keys, ok := privKeys(srv, "used")
+				vs.Note("quiet", "after-batch", strings.Join(keys, ","), fmt.Sprint(ok))
+				peer.Close()
+				srv.WaitStatus()
+			}
+			check := func(x *vs.Exec) []Viol {
+				v := genericRules(x, nil)
+				if x.Outcome != "ok" {
+					return v
+				}
+				Hit("C07.R1")
+				outs := outEvents(x, "srv")
+				if len(outs) != 1 {
+					return append(v, Viol{"C07.R1", fmt.Sprintf("expected one reply array, got %d records", len(outs))})
+				}
+				ms, _, _ := parseRecord([]byte(outs[0].Raw))
+				n7, n8 := 0, 0
+				for _, m := range ms {
+					switch m.ID() {
+					case "7":
+						n7++
+						if !isDupErr(m) {
+							v = append(v, Viol{"C07.R1", fmt.Sprintf("a member sharing id 7 with %d others of its batch was not refused with -32600: %s", k-1, m.Raw)})
+						}
+					case "8":
+						n8++
+						if !m.Has("result") {
+							v = append(v, Viol{"C07.R2", "the call with the unshared id 8 was not served: " + string(m.Raw)})
+						}
+					}
+				}
+				if n7 != k || n8 != 1 {
+					v = append(v, Viol{"C07.R1", fmt.Sprintf("reply array has %d members for id 7 and %d for id 8, want %d and 1", n7, n8, k)})
+				}
+				nh := 0
+				for _, e := range x.Log {
+					if e.K == "h_enter" {
+						nh++
+					}
+					if e.K == "quiet" && e.Arg(2) == "true" && e.Arg(1) != "" {
+						v = append(v, Viol{"C07.R5", "ids still reserved after the batch reply: {" + e.Arg(1) + "}"})
+					}
+				}
+				if nh != 1 {
+					v = append(v, Viol{"C07.R1", fmt.Sprintf("%d handlers ran, only the call with id 8 may run", nh)})
+				}
+				return v
+			}
+			return &Instance{Body: body, Check: check}
+		},
+	}
+}
+
 func c07Scenarios(tier string) []*Scenario {
 	var out []*Scenario
 	var firsts []c07Op
@@ -897,6 +972,9 @@ func c07Scenarios(tier string) []*Scenario {
 		out = append(out, c07Restart("stop", Bounds{1, -1, 0}), c07Restart("eof", Bounds{1, -1, 0}))
 		out = append(out, c07NearID(`"7"`, `7`, Bounds{1, 1, 0}), c07NearID(`7`, `"7"`, Bounds{1, 1, 0}))
 		out = append(out, c07SlotWait(Bounds{1, 1, 0}))
+		for k := 2; k <= 5; k++ {
+			out = append(out, c07BatchDups(k, Bounds{1, 1, 0}))
+		}
 		return out
 	}
 	for _, k := range c07EagerKinds {
@@ -904,6 +982,9 @@ func c07Scenarios(tier string) []*Scenario {
 	}
 	out = append(out, c07Restart("stop", Bounds{2, -1, 1}), c07Restart("eof", Bounds{2, -1, 1}))
 	out = append(out, c07SlotWait(Bounds{2, 2, 0}))
+	for k := 2; k <= 6; k++ {
+		out = append(out, c07BatchDups(k, Bounds{2, 2, 0}))
+	}
 	out = append(out, c07NearID(`"7"`, `7`, Bounds{2, 2, 0}), c07NearID(`7`, `"7"`, Bounds{2, 2, 0}), c07NearID(`"\"7\""`, `"7"`, Bounds{2, 2, 0}))
 	for _, f := range firsts {
 		out = append(out, c07History(f, 3, false, Bounds{2, -1, 0}))
